@@ -77,7 +77,7 @@ CHECKS = {
     ),
     'C06': dict(
         level='exploration',
-        units=[U('^TestC06$', (8, 3000), (14, 25000)), U('^TestC06_ArbitraryWeights$', (2, 10000), (2, 100000)), U('^TestC06_FarIndexes$', (2, 1500), (2, 60000)), U('^TestC06_ObservedContent$', (2, 10000), (3, 300000)), U('^TestC06_ExactProducerLongCount$', (2, 4000), (2, 100000))],
+        units=[U('^TestC06$', (8, 3000), (14, 25000)), U('^TestC06_ArbitraryWeights$', (2, 10000), (2, 100000)), U('^TestC06_FarIndexes$', (2, 1500), (2, 60000)), U('^TestC06_ObservedContent$', (2, 10000), (3, 300000)), U('^TestC06_ExactProducerLongCount$', (2, 4000), (2, 100000)), U('^TestC06_WideContiguous$', (2, 12), (4, 150))],
         essential_labels=['layout:1', 'layout:2', 'layout:3', 'omit-mapping', 'prefix', 'concatenation', 'non-empty-receiver', 'both-sides', 'block:zero', 'variant:exact', 'target:collow', 'target:colhigh', 'target:paginated', 'source:paginated', 'arbitrary-weights', 'weight-changed-by-transform', 'weight-vanishes', 'far-indexes', 'index-delta-beyond-int32', 'second-generation', 'encoding-after-weights-underflowed-to-zero', 'observed-content', 'merge:same-kind-other-limit', 'count-block:9th-byte-top-bit'],
         assumptions=COMMON_ASSUMPTIONS + ["dyadic bounded weights survive the documented (w+1)-1 transform exactly; arbitrary weights are checked bit-for-bit against (w+1)-1 without being summed"],
     ),
@@ -89,7 +89,7 @@ CHECKS = {
     ),
     'C08': dict(
         level='fault_enumeration',
-        units=[U('^TestC08$', (12, 150), None), U('^TestC08_Thorough$', None, (14, 1500)), U('^TestC08_LongVarfloats$', (3, 400), (2, 20000)), F('FuzzC08', 120)],
+        units=[U('^TestC08$', (12, 150), None), U('^TestC08_Thorough$', None, (14, 1500)), U('^TestC08_LongVarfloats$', (3, 400), (2, 20000)), U('^TestC08_FarIndexes$', (2, 600), (2, 30000)), F('FuzzC08', 120)],
         essential_labels=['cut-inside-bin-block', 'cut:uvarint/n', 'cut:varint/delta', 'cut:varfloat/count', 'cut-inside:mapping', 'fault:undefined-flag', 'fault:mapping-mismatch', 'fault:mapping-mismatch-offset-only', 'fault:mapping-mismatch-repeated-on-same-receiver', 'fault:mapping-missing', 'varfloat>=8-bytes', 'cut:8-of-9-varfloat-bytes', 'layout:1', 'layout:2', 'layout:3', 'producer:exact-variant'],
         assumptions=COMMON_ASSUMPTIONS + ["encodings are sampled; for each sampled encoding every cut point is enumerated (and every undefined flag at every block boundary in the thorough tier)", "arbitrary garbage is not thrown at the sketch decoders: the format lets a well-formed block describe 2^63 bins, which the property does not promise to handle gracefully"],
     ),
